@@ -184,9 +184,10 @@ def run_task(task):
     res = core.Result()
     kind, tier, part, nparts = task
     if kind == 'scope':
-        plan = None
         if tier == 'quick':
             plan = [(1, 'full', 'full', lambda i, n: 'full', (False,)), (2, 'core', 'core', lambda i, n: 'core', (False,))]
+        else:
+            plan = [(1, 'full', 'full', lambda i, n: 'full', (False, True)), (2, 'mid', 'mid', lambda i, n: 'core', (False,)), (3, 'core', 'core', lambda i, n: 'tiny', ('chain',))]
         for desc, src in scope_engine.programs(tier, part, nparts, plan):
             examine(desc, src, res)
     else:
